@@ -2,7 +2,7 @@
     Statements only; the proof is the global invariant of Proofs/InterpInv.v. *)
 From Coq Require Import List ZArith NArith Bool.
 From RRSS Require Import Base.Outcome Base.Chars Base.F64 Exec.Val Exec.Ops Front.Ast Exec.Env Exec.Interp Exec.RtErrorText.
-From RRSS Require Import Proofs.InterpInv Proofs.InterpLaws.
+From RRSS Require Import Front.Token Front.Lexer Front.Parser Front.ParseErrorText Proofs.InterpInv Proofs.InterpLaws Proofs.EndToEnd.
 Import ListNotations.
 
 (** For EVERY syntax tree (parser-accepted or not), both build profiles (the debug profile turns
@@ -14,6 +14,18 @@ Import ListNotations.
 Theorem C09_exec_no_crash :
   forall prof fuel p c, match exec_program prof fuel p c with XPanic _ | XUB _ => False | _ => True end.
 Proof. exact exec_no_crash. Qed.
+
+(** from source text to the end of the run: every source shorter than 4 GiB either fails to parse with an
+    error that renders, or parses to a program whose execution (any input, any faults, any fuel) never
+    reaches a crash site — in both profiles; the front end itself never crashes or runs out of fuel (C01) *)
+Theorem C09_whole_pipeline_safe :
+  forall prof src fuel c, (byte_len src < u32_limit)%N ->
+  match parse prof src with
+  | ParseOk p => match exec_program prof fuel p c with XPanic _ | XUB _ => False | _ => True end
+  | ParseErr e => exists text, parse_error_display e = Ok text
+  | ParseCrash _ _ | ParseOutOfFuel => False
+  end.
+Proof. exact whole_pipeline_safe. Qed.
 
 Theorem C09_exec_stmt_no_crash :
   forall prof fuel s xs e, wf e -> prex xs ->
